@@ -31,6 +31,10 @@ func Main(args []string) int {
 			return checkC10()
 		case "C05mon":
 			return checkC05()
+		case "C05full":
+			return checkC05Full()
+		case "C16grow":
+			return checkC16Grow()
 		case "C18atom":
 			return checkC18()
 		case "C03conc":
@@ -917,6 +921,15 @@ func checkSimple(prop, harness, evName string) int {
 		if tier == "thorough" {
 			levels = append(levels, Bounds{4, 0, 4}, Bounds{5, 0, 5})
 		}
+	case "C16grow":
+		for _, cf := range c16GrowConfigs(tier) {
+			cf := cf
+			jobs = append(jobs, Job{Harness: harness, C18: &cf})
+		}
+		levels = []Bounds{{0, 0, 0}, {1, 0, 1}, {2, 0, 2}, {3, 0, 3}}
+		if tier == "thorough" {
+			levels = append(levels, Bounds{4, 0, 4}, Bounds{5, 0, 5})
+		}
 	case "C18atom":
 		for _, cf := range c18Configs(tier) {
 			cf := cf
@@ -925,6 +938,15 @@ func checkSimple(prop, harness, evName string) int {
 		levels = []Bounds{{0, 0, 0}, {1, 0, 1}, {2, 0, 2}, {3, 0, 3}}
 		if tier == "thorough" {
 			levels = append(levels, Bounds{4, 0, 4}, Bounds{5, 0, 5})
+		}
+	case "C05full":
+		for _, cf := range c05FullConfigs(tier) {
+			cf := cf
+			jobs = append(jobs, Job{Harness: harness, C05Full: &cf})
+		}
+		levels = []Bounds{{0, 0, 0}, {1, 0, 1}}
+		if tier == "thorough" {
+			levels = append(levels, Bounds{2, 0, 2})
 		}
 	case "C05mon":
 		for _, cf := range c05Configs(tier) {
@@ -1044,7 +1066,7 @@ func simpleAssumptions(h string) []string {
 			"oracle inside the stub data path: when the FIRST replica call of a write/sync/unmap operation arrives at a replica, the number of RW entries of the controller's replica list at that moment (not the cached RWReplicaCount) must be >= RF/2+1; the other calls of the same MultiWriterAt fan-out belong to the same admission; an operation refused as read-only must not have reached any replica",
 			"calls are attributed to operations by payload byte (write), offset (unmap), and by being the only sync of the configuration; failing calls fail before being applied on the chosen replica",
 		}
-	case "C18atom", "C13conc", "C04conc", "C02conc", "C10prom", "C05conc":
+	case "C18atom", "C13conc", "C04conc", "C02conc", "C10prom", "C05conc", "C16grow":
 		return []string{
 			"real controller.Controller (whole package under the scheduler: Controller.RWMutex, MultiWriterAt/replicator fan-out goroutines and wait groups, Controller.monitoring goroutines) with real *remote.Remote backends whose REST and data calls go in-process to engine E-B's model replica nodes (bound to the real replica by E-B's conformance check)",
 			"each execution builds its own cluster inside the scheduler (register x2, start, add+sync+verify) without exploring that prefix; then the calls run concurrently; map iterations of package controller are in key order",
@@ -1073,9 +1095,14 @@ func simpleAssumptions(h string) []string {
 			"the hole-punching goroutine is idle (reclamation off, as in a freshly started replica); its drain branch is played by a managed stub thread",
 			"each execution builds its own replica inside the scheduler (not explored), then the handlers of the configuration's requests run concurrently; oracle: every handler returns, no handler panics (a double unlock is a panic of the shimmed mutex), afterwards the server and replica locks are free and GET /v1/replicas/1 is answered 200",
 		}
+	case "C05full":
+		return []string{
+			"real controller.Controller with backends made by the real remote.Factory (Create / SignalToAdd / VerifyReplicaAlive; its REST calls are answered by model nodes in-process, its net.Dial gets an in-memory connection), real rpc.Client, monitorPing and Controller.monitoring goroutines; each replica is the real rpc.Server in front of a model node",
+			"the set-up (register, start, add, sync, verify, one write) runs inside the scheduler with default choices (not explored); virtual time is cut off at the configured horizon because the ping tickers never stop",
+		}
 	case "C05mon":
 		return []string{
-			"real remote.monitorPing / StopMonitoring and a real rpc.Client on the in-memory connection; the Remote value is built by an overlay-added constructor with the channel capacities of Factory.Create (closeChan 5, monitorChan 5)",
+			"real remote.monitorPing / StopMonitoring and a real rpc.Client on the in-memory connection; the Remote value is built by the REAL remote.Factory.Create (its REST calls answered in-process, its net.Dial routed to the in-memory connection by the E-D profile)",
 			"the controller side is a consumer thread that receives from the monitor channel once (as Controller.monitoring does) ; virtual time is cut off at the configured horizon because the ping ticker never stops",
 		}
 	}
